@@ -131,6 +131,7 @@ type signCase struct {
 	pubRSA   string
 	expectOK bool
 	failKind string // "" | callback_error | invalid_type | unknown_key_id | invalid_type_callback
+	withPass bool   // a passphrase is in the environment although the key is not protected (it protects another format's key)
 }
 
 var errCallback = errors.New("callback signer refused")
@@ -165,6 +166,11 @@ func famSign(tr *Trace, scratch string, seed int64, tier string, repo string) M 
 			add(signCase{fmtName: "apk", keyKind: k.priv, pubRSA: k.pub, keyName: kn.name, maintain: kn.maint, expectOK: true})
 		}
 	}
+	// an unprotected key while a passphrase is set (NFPM_PASSPHRASE is global: it may be there for another format's key)
+	add(signCase{fmtName: "apk", keyKind: "rsa_unprotected.priv", pubRSA: "rsa_unprotected.pub", keyName: "origin", maintain: "Jane Doe <jane@example.org>", expectOK: true, withPass: true})
+	add(signCase{fmtName: "deb", method: "debsign", keyKind: "privkey_unprotected.asc", expectOK: true, withPass: true})
+	add(signCase{fmtName: "deb", method: "dpkg-sig", keyKind: "privkey_unprotected.asc", expectOK: true, withPass: true})
+	add(signCase{fmtName: "rpm", keyKind: "privkey_unprotected.gpg", expectOK: true, withPass: true})
 	// callbacks: the signer is handed the bytes to sign
 	for _, f := range []string{"deb", "rpm", "apk"} {
 		add(signCase{fmtName: f, method: map[string]string{"deb": "debsign"}[f], keyKind: "callback", expectOK: true, keyName: "origin"})
@@ -237,7 +243,7 @@ func famSign(tr *Trace, scratch string, seed int64, tier string, repo string) M 
 		Materialise(pc.Root, pc.Nodes)
 		yaml := c.YAML(pc.Root)
 		pass := "hunter2"
-		if strings.Contains(sc.keyKind, "unprotected") {
+		if strings.Contains(sc.keyKind, "unprotected") && !sc.withPass {
 			pass = ""
 		}
 		cfg, perr := nfpm.ParseWithEnvMapping(strings.NewReader(yaml), func(k string) string {
